@@ -81,7 +81,7 @@ fn c05_o1b_sockaddr() {
 }
 
 //@ ob: C05.O1c
-//@ tier: thorough
+//@ tier: off
 //@ cap: 1200
 //@ also: C10
 //@ desc: bytes_to_nodes4 is total on lengths {0, 25, 26, 27, 52}: Ok iff a multiple of 26, yielding len/26 nodes with id = bytes[0..20], ip = bytes[20..24], port big-endian bytes[24..26]; nodes4_to_bytes is its inverse
@@ -231,7 +231,7 @@ fn put_value(k: Option<[u8; 32]>, sig: Option<[u8; 64]>, seq: Option<i64>, cas: 
 }
 
 //@ ob: C05.O1f
-//@ tier: thorough
+//@ tier: off
 //@ cap: 3000
 //@ mem: 40
 //@ alone: true
@@ -250,7 +250,7 @@ fn c05_o1f_put_k_without_seq() {
 }
 
 //@ ob: C05.O1g
-//@ tier: thorough
+//@ tier: off
 //@ cap: 3000
 //@ mem: 40
 //@ alone: true
@@ -289,7 +289,7 @@ fn c05_o1g_put_presence() {
 }
 
 //@ ob: C10.O1a
-//@ tier: thorough
+//@ tier: off
 //@ cap: 2400
 //@ mem: 24
 //@ desc: announce_peer encoding: into_serde_message maps implied_port to 1 iff it is Some(true) (None and Some(false) encode 0), keeps port, token and info_hash, writes the transaction id as 4 big-endian bytes and ro = 1 iff read_only
